@@ -808,11 +808,25 @@ SKIP_RECORD_PARSE:
                         return MATRIXSSL_SUCCESS;
                     }
                     psAssert(*c == SSL_RECORD_TYPE_HANDSHAKE); /* Finished */
+                    if (end - c < DTLS_HEADER_ADD_LEN + SSL3_HEADER_LEN)
+                    {
+                        /* Not even a record header: drop the rest */
+                        *buf = end;
+                        return DTLS_RETRANSMIT;
+                    }
                     c += 11;                                   /* Skip type, version, epoch to get to length */
                     /* borrow rc since we will be leaving here anyway */
                     rc = *c << 8; c++;
                     rc += *c; c++;
-                    c += rc; /* Skip FINISHED message we've already accepted */
+                    if (end - c < rc)
+                    {
+                        /* The record claims more than the datagram holds */
+                        c = end;
+                    }
+                    else
+                    {
+                        c += rc; /* Skip FINISHED message we've already accepted */
+                    }
                     *buf = c;
                 }
                 return DTLS_RETRANSMIT;
